@@ -329,9 +329,46 @@ func (in *instr) rewriteList(list []ast.Stmt) []ast.Stmt {
 			Fun:  &ast.SelectorExpr{X: ast.NewIdent(shimName), Sel: ast.NewIdent("Yield")},
 			Args: []ast.Expr{&ast.BasicLit{Kind: token.INT, Value: strconv.Itoa(id)}},
 		}})
+		if hasAtomicOp(s) {
+			// a statement that performs an atomic operation is also a coarse scheduling point (like a pool operation):
+			// hand-rolled caches in front of the pools are interleaved at the same granularity as the pools
+			out = append(out, &ast.ExprStmt{X: &ast.CallExpr{
+				Fun:  &ast.SelectorExpr{X: ast.NewIdent(shimName), Sel: ast.NewIdent("SyncPoint")},
+				Args: []ast.Expr{&ast.BasicLit{Kind: token.INT, Value: strconv.Itoa(id)}},
+			}})
+		}
 		out = append(out, s)
 	}
 	return out
+}
+
+// hasAtomicOp: the statement itself (not the bodies nested in it) calls something spelled like an atomic
+// operation: atomic.XxxT(...) or x.Load() / x.Store(v) / x.Swap(v) / x.CompareAndSwap(a, b) / x.Add(n).
+func hasAtomicOp(s ast.Stmt) bool {
+	switch s.(type) {
+	case *ast.ExprStmt, *ast.AssignStmt, *ast.ReturnStmt, *ast.IfStmt, *ast.DeclStmt, *ast.IncDecStmt:
+	default:
+		return false
+	}
+	found := false
+	ast.Inspect(s, func(n ast.Node) bool {
+		switch v := n.(type) {
+		case *ast.BlockStmt, *ast.FuncLit:
+			return false
+		case *ast.CallExpr:
+			if se, ok := v.Fun.(*ast.SelectorExpr); ok {
+				if id, ok := se.X.(*ast.Ident); ok && id.Name == "atomic" {
+					found = true
+				}
+				switch se.Sel.Name {
+				case "Load", "Store", "Swap", "CompareAndSwap":
+					found = true
+				}
+			}
+		}
+		return !found
+	})
+	return found
 }
 
 func isShimCall(s ast.Stmt) bool {
